@@ -71,7 +71,10 @@ CHECKS["C16"] = {
             "stay in container order and loss() is their head entry; a re-sample recomputes every interval whose loss depends on the changed mean "
             "(nn = 1 included). The VALUES are exact only under a guard: the three AverageLearner1D rescale loops iterate the live container, and a "
             "custom loss that grows with the output scale leaves a stale entry (two kernel-checked counterexamples, replayed on the real class; no "
-            "shipped loss grows with the scale, outside this property). Same "
+            "shipped loss grows with the scale, outside this property). For losses that do not grow with the output scale and do not depend on the "
+            "scale on constant values (ScaleMonotone, FlatScaleFree: uniform and every default-loss shape g(dx, |dy|/scale)) the live loop visits "
+            "every key and the stored losses ARE exact after every history of in-bounds tells (c16l_values_exact; one remaining hypothesis FlatHist "
+            "- scale 0 implies all means equal - is decidable per history and discharged in the examples, listed as partial). Same "
             "definitions run at Float in lock-step with the real learners (full model: bit for bit incl. both loss tables, "
             "rescaled_error in container order, ask points/improvements/branch); statistics, rescaled errors and the ask rule "
             "re-derived on the real objects. One recorded finding (literal 'goes to an abscissa with fewer than min_samples' reading).",
@@ -298,7 +301,8 @@ CHECKS["C03"] = {
             "argument with the polynomial in-circle predicate, bridged to the implementation's centre/radius test at eps = 0), the "
             "work-list loop asks every neighbour of a deleted simplex (bowyer_watson_neighbours_asked), so truthful in-circle answers + "
             "a locally Delaunay, genuine triangulation around the cavity give area conservation of an accepted interior insertion "
-            "(bowyer_watson_truthful_preserves_area_2d); "
+            "(bowyer_watson_truthful_preserves_area_2d), and the same in dimension 3 with the pencil of spheres through a face "
+            "(Props/C03Dim3.lean: cavity_star_shaped_3d, bowyer_watson_truthful_preserves_volume_3d, bridge to circumsphere3 at eps = 0); "
             "the rest (facets in <= 2 simplices, every vertex used, hull extension, Delaunay) stays the visible, unproved "
             "tiles_hull_statement (index clause: tiles_hull_partial); all of it is audited exactly on the real object after every "
             "insertion, where it fails on degenerate/anisotropic inputs (known findings). Tie: exact lock-step of "
